@@ -212,6 +212,15 @@ def keyMissing (os : ObjSt) (cols wa : List Attr) : Bool :=
 def whereOk (σ : State) (s : Sid) (o : Obj) (os : ObjSt) (cols : List Attr) : Bool :=
   cols.all (fun a => os.dbvals a == some (view σ s o a))
 
+/-- the optimistic criteria (column, `_dbvals_` entry) of the UPDATE that the next flush step of `s` issues — reported to
+    the tie, which checks the generated WHERE clause column by column (`IS NULL` for a None observation, `= ?` otherwise) -/
+def headCrit (cfg : Cfg) (σ : State) (s : Sid) : Option (Obj × List (Attr × Option Val)) :=
+  match (σ.sess s).toSave with
+  | [] => none
+  | o :: _ =>
+    let os := (σ.sess s).objs o
+    some (o, (critCols cfg s ((σ.sess s).forUpd o) os).map (fun a => (a, os.dbvals a)))
+
 /-- [Entity._save_updated_] for the first object of `objects_to_save`:
     `UPDATE t SET written columns WHERE pk AND optimistic columns = dbvals`, `rowcount == 0` → OptimisticCheckError -/
 def saveHead (cfg : Cfg) (σ : State) (s : Sid) (o : Obj) (rest : List Obj) (done : Res) : State × Out :=
